@@ -569,8 +569,8 @@ func buildMore(dir string, thorough bool) {
 	pgSessionEncs()
 	all := prepEncs["store.ReplicateTx"] // v1 tx1..4, v0 tx1..2
 	prepEncs["store.ReplicateTx(skipIntegrityCheck)"] = []enc{all[1]}
-	if !thorough { // quick: the multi-entry tx with KV metadata and empty value, the tx with truncation + extra metadata
-		prepEncs["store.ReplicateTx"] = []enc{all[1], all[3]}
+	if !thorough { // quick: the multi-entry tx with KV metadata and empty value, the tx with truncation + extra metadata, a version-0 tx
+		prepEncs["store.ReplicateTx"] = []enc{all[1], all[3], all[4]}
 	} else {
 		prepEncs["store.ReplicateTx(skipIntegrityCheck)"] = []enc{all[1], all[3]}
 	}
